@@ -2,7 +2,7 @@
 import json, os, sys, time
 from .common import *
 from .engine import *
-from . import cratebuild, corpus_ctor, corpus_extra, corpus_serde, corpus_arb
+from . import cratebuild, corpus_ctor, corpus_extra, corpus_serde, corpus_arb, verdict, corpus_verdict
 
 ASSUME_COMMON = ["lowercase/uppercase meaning = this toolchain's str::to_lowercase/to_uppercase",
                  "NaN vs bound validators: either verdict accepted (DESIGN section 3)",
@@ -285,7 +285,121 @@ def check_c14(tier, seed):
                      guards)
 
 
-CHECKS = {"C09": check_c09, "C14": check_c14, "C04": check_c04, "C10": check_c10, "C01": check_c01, "C03": check_c03, "C06": check_c06, "C07": check_c07, "C11": check_c11, "C12": check_c12, "C13": check_c13, "C16": check_c16}
+FULL_DEPS = 'serde = { version = "1.0.150", features = ["derive"] }\narbitrary = { version = "1.3.0", features = ["derive"] }\nregex = "1"\n'
+
+
+def verdict_witness(res, case, obs, signature):
+    v = {"decl": case.id, "signature": signature, "input": case.rule, "observed": obs, "expected": case.expect, "detail": case.note}
+    v["replay"] = write_witness(res, v, module_text="pub mod %s {\n%s\n}\n" % (case.id, case.body), decl_src=case.body, kind="compile", features=case.group)
+    return v
+
+
+def rule_class(rule):
+    """cause class of a verdict violation: the rule / matrix cell family (stable across corpus growth)"""
+    parts = rule.split(":")
+    if parts[0] == "matrix":
+        return "matrix:%s:%s:%s" % (parts[1], parts[2], parts[3])
+    if parts[0] in ("names", "generic"):
+        return ":".join(parts[:3])
+    if parts[0] == "R7":
+        return ":".join(parts[:2] + parts[3:4])
+    if parts[0] == "random":
+        return rule[:80]
+    return ":".join(parts[:2])
+
+
+def check_c08(tier, seed):
+    res = Result("C08", tier, seed)
+    res.rule = ("verdict corpus x 2 crate-feature sets (all features; std only): admissibility matrix (22 traits x 4 families x {no validation, standard, standard+finite, custom}), one "
+                "declaration per rejection rule of the statement (visible field, foreign attributes, #[derive], unknown/mis-cased/wrong-family items, duplicates, repeated blocks, "
+                "lowercase+uppercase, literal bounds in every relative position incl. equal, with/error combinations, From rules, float Eq/Ord rules, Default, regex, feature gates, "
+                "input shapes) with nearest well-formed neighbours, hostile type / type-parameter names, generic newtypes with bounds x each derive, attribute layouts, seeded random "
+                "declarations; each paired with an independent reference predicate written from the README (MUST_ACCEPT / MUST_REJECT / UNSPECIFIED). Observed verdict: rejected iff "
+                "rustc reports >= 1 error attributed to the declaration by span; accepted iff member of a clean build. Plus a crate of expression-valued contradictory bounds / "
+                "invalid defaults whose generated unit tests must fail exactly when contradictory (cargo test). A case is one declaration; non-trivial = its observed verdict was "
+                "compared with a MUST_ACCEPT or MUST_REJECT expectation.")
+    groups = [("all", cratebuild.ALL_FEATURES, FULL_DEPS), ("f0", ["std"], "")]
+    for gname, feats, deps in groups:
+        cases = corpus_verdict.build(tier, seed, feats, gname)
+        vc = verdict.VerdictCrate("c08-%s-%s-s%d" % (gname, tier, seed), feats, extra_deps=deps)
+        try:
+            out, info = verdict.run_verdicts(vc, cases, log=log)
+        except Inconclusive as e:
+            res.inconclusive.append(str(e))
+            continue
+        log("C08 %s: %d cases in %d rounds, %.1fs" % (gname, len(cases), info["rounds"], info["wall_s"]))
+        res.declarations += len(cases)
+        for c in cases:
+            o = out.get(c.id)
+            if o is None:
+                res.inconclusive.append("no verdict for %s" % c.id)
+                continue
+            res.evaluations += 1
+            key = "%s/%s->%s" % (gname, c.expect, o["verdict"])
+            res.hist[key] = res.hist.get(key, 0) + 1
+            if c.expect != "UNSPECIFIED":
+                res.classes.add("%s|%s" % (gname, c.id))
+                res.extra.setdefault("rules_seen", set()).add(rule_class(c.rule))
+            if c.expect == "MUST_REJECT" and o["verdict"] == "accepted":
+                res.violations.append(verdict_witness(res, c, "accepted (compiles cleanly)", "must-reject-accepted:" + rule_class(c.rule)))
+            elif c.expect == "MUST_ACCEPT" and o["verdict"] == "rejected":
+                codes = ",".join(sorted(set(str(e["code"]) for e in o["errors"])))
+                res.violations.append(verdict_witness(res, c, "rejected: %s" % json.dumps(o["errors"])[:600], "must-accept-rejected:" + rule_class(c.rule)))
+            if len(res.samples) < 10 and res.evaluations % 97 == 0:
+                res.samples.append({"group": gname, "declaration": c.body, "expected": c.expect, "observed": o["verdict"], "errors": o["errors"][:1]})
+    # ---- generated unit tests
+    gt = corpus_verdict.generated_tests_cases()
+    gdir = os.path.join(WORK, "c08-gentests")
+    write_if_changed(os.path.join(gdir, "src", "lib.rs"), "#![allow(dead_code, unused_imports)]\n" + "\n".join(t[0] for t in gt))
+    write_if_changed(os.path.join(gdir, "Cargo.toml"), '[package]\nname = "gentests"\nversion = "0.1.0"\nedition = "2021"\n\n[dependencies]\nnutype = { path = "%s/nutype" }\n\n[workspace]\n\n[profile.dev]\ndebug = 0\n' % REPO)
+    if not os.path.exists(os.path.join(gdir, "Cargo.lock")):
+        import shutil
+        shutil.copy(os.path.join(REPO, "Cargo.lock"), os.path.join(gdir, "Cargo.lock"))
+    env = dict(ENV); env["CARGO_TARGET_DIR"] = os.path.join(WORK, "target")
+    rc, out_t, err_t, dt = run(["cargo", "test", "--offline", "--lib", "--", "--test-threads", "8"], cwd=gdir, env=env, timeout=1200)
+    results = {}
+    for line in out_t.splitlines():
+        line = line.strip()
+        if line.startswith("test ") and (line.endswith("... ok") or line.endswith("... FAILED")):
+            name = line[5:].rsplit(" ... ", 1)[0]
+            results[name] = line.endswith("ok")
+    if not results:
+        res.inconclusive.append("generated-tests crate produced no test results: rc=%d %s" % (rc, err_t[-600:]))
+    n_fail_expected = 0
+    for i, (text, tname, test, must_fail) in enumerate(gt):
+        full = "g%03d::__nutype_%s__::tests::%s" % (i + 1, tname, test)
+        res.evaluations += 1
+        if full not in results:
+            res.violations.append({"decl": tname, "signature": "generated-test-missing:" + test, "input": text, "observed": "no such test in the user's crate",
+                                   "expected": "test exists and %s" % ("fails" if must_fail else "passes"), "detail": "", "replay": "-"})
+            res.violations[-1]["replay"] = write_witness(res, res.violations[-1], module_text=text, decl_src=text, kind="generated-test")
+            continue
+        passed = results[full]
+        res.classes.add("gentest|%s|%s" % (tname, "fails" if not passed else "passes"))
+        res.hist["gentest:%s" % ("pass" if passed else "fail")] = res.hist.get("gentest:%s" % ("pass" if passed else "fail"), 0) + 1
+        if must_fail:
+            n_fail_expected += 1
+        if passed == must_fail:
+            v = {"decl": tname, "signature": "generated-test-wrong-outcome:%s:%s" % (test, "passes-on-contradiction" if must_fail else "fails-on-consistent"), "input": text,
+                 "observed": "test %s" % ("passed" if passed else "FAILED"), "expected": "test %s" % ("fails" if must_fail else "passes"), "detail": ""}
+            v["replay"] = write_witness(res, v, module_text=text, decl_src=text, kind="generated-test")
+            res.violations.append(v)
+    res.samples.append({"generated_test_example": gt[1][0], "expected": "test fails" if gt[1][3] else "test passes"})
+    # guards
+    seen = res.extra.pop("rules_seen", set())
+    for r in ("R1", "R2", "R3", "R4", "R5", "R6", "R7", "R8", "R9", "R10", "R11", "R12", "R13", "R14"):
+        res.guard("rule_cases[%s]" % r, sum(1 for x in seen if x.split(":")[0] == r), 1)
+    res.guard("matrix_cells", sum(1 for x in seen if x.startswith("matrix:")), 200)
+    res.guard("must_accept_compiled", sum(v for k, v in res.hist.items() if "MUST_ACCEPT->accepted" in k), 400)
+    res.guard("must_reject_rejected", sum(v for k, v in res.hist.items() if "MUST_REJECT->rejected" in k), 300)
+    res.guard("generated_tests_expected_to_fail", n_fail_expected, 20)
+    res.assumptions += ["reference predicate: README tables and prose (UNSPECIFIED where they are silent or contradict each other: float Hash, adjacent exclusive integer bounds, "
+                        "const_fn on String, Arbitrary with predicate/custom sanitizer, default without derive(Default), duplicate traits, two-field tuple structs)",
+                        "rustc 1.95; error codes are recorded but not part of the verdict"]
+    return finish(res)
+
+
+CHECKS = {"C08": check_c08, "C09": check_c09, "C14": check_c14, "C04": check_c04, "C10": check_c10, "C01": check_c01, "C03": check_c03, "C06": check_c06, "C07": check_c07, "C11": check_c11, "C12": check_c12, "C13": check_c13, "C16": check_c16}
 
 
 def run_check(prop, tier, seed):
